@@ -93,6 +93,14 @@ var kindTypes = map[string]reflect.Type{
 	"any": reflect.TypeOf((*any)(nil)).Elem(),
 }
 
+// values of named types whose kind is a supported scalar kind (time.Duration, enums, ...)
+type namedInt int
+type namedInt8 int8
+type namedUint16 uint16
+type namedStr string
+type namedBool bool
+type namedF64 float64
+
 func buildVal(n *sx) (any, error) {
 	if !n.isL || len(n.list) == 0 {
 		return nil, fmt.Errorf("bad value")
@@ -276,6 +284,37 @@ func buildVal(n *sx) (any, error) {
 		return [2]int{1, 2}, nil
 	case "imap":
 		return map[int]string{1: "a"}, nil
+	case "bmap":
+		// two keys that are not strings: which one "wins" would depend on the map's iteration order
+		return map[bool]int{true: 1, false: 2}, nil
+	case "nint":
+		i, err := strconv.ParseInt(args[0].atom, 10, 64)
+		if err != nil {
+			return nil, err
+		}
+		return namedInt(i), nil
+	case "nint8":
+		i, err := strconv.ParseInt(args[0].atom, 10, 8)
+		if err != nil {
+			return nil, err
+		}
+		return namedInt8(i), nil
+	case "nuint16":
+		u, err := strconv.ParseUint(args[0].atom, 10, 16)
+		if err != nil {
+			return nil, err
+		}
+		return namedUint16(u), nil
+	case "nstr":
+		return namedStr(unhex(args[0].atom)), nil
+	case "nbool":
+		return namedBool(args[0].atom == "1"), nil
+	case "nf64":
+		u, err := strconv.ParseUint(args[0].atom, 16, 64)
+		if err != nil {
+			return nil, err
+		}
+		return namedF64(math.Float64frombits(u)), nil
 	}
 	return nil, fmt.Errorf("unknown value tag %s", tag)
 }
